@@ -995,11 +995,14 @@ MANIFEST = {
 		'reachable_exactly_once, unreachable_absent, imports_before_own(+_acyclic), root_last, missing_file_error, unparsable_file_error, '
 		'parse_ok_iff, and the exit-status table exit_range / exit_zero_iff / exit_two_iff / exit_one_iff / output_only_when_valid. The model is '
 		'tied to catparser/__main__.py by a differential run on generated import graphs x working directories x include spellings, through '
-		'LarkMultiFileParser, main() and real `python -m catparser` processes.'),
+		'LarkMultiFileParser, main() and real `python -m catparser` processes; the graphs include distinct files whose names differ only in letter '
+		'case / unicode normal form / under case folding (each must be parsed), one file under several import spellings (parsed once), and a sweep '
+		'of validation errors of both stages on plain / abstract / inline structs used as named inline, unnamed inline, member type or not at all '
+		'(exit status against the model and against the validator run over the whole parsed set).'),
 	'level_note': (
 		'Trusted: Lean kernel + {propext, Classical.choice, Quot.sound}; hand-written model tied by differential execution only; files are abstracted '
-		'to (imports, declaration names); validation/expansion/generation are parameters of the exit-status theorems; import strings are canonical '
-		'include-relative paths. Known findings on the unchanged tree: root re-entered through an import cycle (str vs Path), a file that is exactly one '
+		'to (imports, declaration names); validation/expansion/generation are parameters of the exit-status theorems; an import string is abstracted '
+		'to the identity of the file it resolves to (spellings with ., .., // are generated; symlinks and absolute import strings are not). Known findings on the unchanged tree: root re-entered through an import cycle (str vs Path), a file that is exactly one '
 		'import statement loses the import, a file that is exactly one comment crashes parse().'),
 	'technique': 'Lean 4 theorems over a hand-written model + differential correspondence with the Python implementation',
 }
